@@ -13,7 +13,7 @@ from ..engine import flow, cfg as cfgmod
 from ..engine import pattern as P
 from ..engine.facts import dotted, const, src, walk_func, enclosing_stmt
 from . import skeletons as sk
-from .common import calls, contains
+from .common import calls, contains, pn, access_paths
 
 
 @rule("C06.block-guard", min_instances=3)
@@ -49,7 +49,7 @@ def block_guard(ctx):
             ctx.check(ok, "named", "mako/codegen.py (visitBlockTag)", "named block call: %s\n%s" % (why, s.source), "guarded by 'no parent or parent lacks the block', dispatched through context['self'], **pageargs forwarded")
     vb = db.func("codegen._GenerateRenderMethod.visitBlockTag")
     fm = [x for x in walk_func(vb) if isinstance(x, ast.BinOp) and isinstance(x.left, ast.Constant) and "hasattr(context._data['parent']" in str(x.left.value)]
-    fw = [x for x in walk_func(vb) if isinstance(x, ast.AugAssign) and src(x.target) == "nameargs" and "'**pageargs'" in src(x.value)]
+    fw = P.has(vb, "$n = %s.get_argument_expressions(as_call=True)\n$n += ['**pageargs']\n...\nself.printer.writeline($f %% (%s.funcname, ','.join($n)))\n..." % (pn(vb, 1), pn(vb, 1)))
     ctx.check(bool(fw), "forwards-pageargs", db.where(vb), "the block call does not forward **pageargs", "nameargs += ['**pageargs']")
     ctx.check(bool(fm) and src(fm[0].right) == "node.funcname", "guard-names-block", db.where(vb), "the guard tests another attribute than the block's own name", "hasattr(parent, <block name>)")
     # named blocks are emitted as top-level render_<name> callables taking **pageargs
@@ -171,6 +171,12 @@ def wiring(ctx):
     ctx.check(P.has(rc, "($i, $l) = _populate_self_namespace($c, $t)\n_exec_template($i, $l, args=$a, kwargs=$k)"), "executes-base", db.where(rc), "_render_context does not execute what _populate_self_namespace returned", "executes the base-most body with its context")
     wi = db.func("codegen._GenerateRenderMethod.write_inherit")
     c = calls(db.func("codegen._GenerateRenderMethod.write_toplevel"), "self.write_inherit")
-    ctx.check(bool(c) and src(c[0].args[0]) == "inherit[-1]", "last-inherit-wins", db.where(c[0]) if c else db.where(wi), "not the last <%inherit> tag is used", "inherit[-1]")
+    wt_ = db.func("codegen._GenerateRenderMethod.write_toplevel")
+    okl = False
+    if c and isinstance(c[0].args[0], ast.Subscript) and isinstance(c[0].args[0].value, ast.Name) and src(c[0].args[0].slice) == "-1":
+        lst = c[0].args[0].value.id
+        appenders = [f_ for f_ in ast.walk(wt_) if isinstance(f_, ast.FunctionDef) and f_ is not wt_ and P.has(f_, "%s.append(%s)" % (lst, pn(f_, 1)))]
+        okl = P.has(wt_, "%s = []" % lst) and [f_.name for f_ in appenders] == ["visitInheritTag"]
+    ctx.check(okl, "last-inherit-wins", db.where(c[0]) if c else db.where(wi), "not the last <%inherit> tag is used", "inherit[-1]")
     ns = db.func("codegen._GenerateRenderMethod.write_namespaces")
     ctx.check("context['self'].%s = ns" in src(ns) and "inheritable" in src(ns), "inheritable-namespaces", db.where(ns), "inheritable namespaces are not attached to self", "inheritable -> context['self'].<name>")
